@@ -366,6 +366,8 @@ pub fn response_options() -> BoxedStrategy<Vec<(u16, Vec<u8>)>> {
         3 => proptest::sample::select(vec![0u8, 40, 42, 50, 60]).prop_map(|c| (12u16, if c == 0 { vec![] } else { vec![c] })),
         2 => (0u32..100_000).prop_map(|v| (14u16, crate::props::c01::min_uint(v as u64))), // Max-Age
         2 => "[a-z]{1,8}".prop_map(|s| (8u16, s.into_bytes())),                            // Location-Path
+        2 => (0u32..(1 << 24)).prop_map(|v| (6u16, crate::props::c01::min_uint(v as u64))), // Observe (notification)
+        1 => "[a-z=]{1,8}".prop_map(|s| (20u16, s.into_bytes())),                          // Location-Query
         1 => (proptest::sample::select(vec![2048u16, 65000, 300, 21]), proptest::collection::vec(any::<u8>(), 0..20)).prop_map(|(n, v)| (n, v)),
         1 => (0u32..70_000).prop_map(|v| (28u16, crate::props::c01::min_uint(v as u64))),  // Size2
     ];
@@ -475,7 +477,7 @@ pub fn run(ctx: &Ctx, rep: &mut Report) {
                     token_len: 2,
                     con: true,
                     code: 0x45,
-                    options: vec![(4, vec![1, 2, 3, 4, 5, 6, 7, 8]), (12, vec![42]), (14, vec![60])],
+                    options: vec![(4, vec![1, 2, 3, 4, 5, 6, 7, 8]), (6, vec![len as u8 | 1]), (12, vec![42]), (14, vec![60])],
                     body_len: len,
                     body_seed: len as u8,
                     first_szx: match strat {
